@@ -33,7 +33,7 @@ PROPS = {
     },
     "C03": {
         "technique": "runtime monitoring: offline checker over the hook event log (calibration parameters per mechanism) cross-checked against the literals of the emitted IR (sigma of every Gaussian term, tau of every threshold filter) and the returned DpEvent",
-        "level_text": "Exploration: ~30k DP compilations per quick run (1-3 aggregates incl. DISTINCT splits, var/std, grouped by public / private / mixed keys, joins along the privacy-unit path and with public tables, nested DP sub-queries, HAVING) x DpParameters grid (epsilon 0.01..50, delta 1e-9..0.1, thresholding shares, multiplicities, max groups 1..10) x with/without synthetic data, plus zero-budget requests. For each: every noised column of the IR must be matched by a Gaussian entry with multiplier <= sigma/C, every threshold filter by an epsilon-delta entry it satisfies (independent tau formula), and each aggregation's applied noise must fit its (epsilon, delta) under basic composition for some delta split.",
+        "level_text": "Exploration: ~30k DP compilations per quick run (1-3 aggregates incl. DISTINCT splits, var/std, grouped by public / private / mixed keys, joins along the privacy-unit path and with public tables, nested DP sub-queries, joins of two DP sub-queries, HAVING) x DpParameters grid (epsilon 0.01..50, delta 1e-9..0.1, thresholding shares, multiplicities, max groups 1..10) x with/without synthetic data, plus zero-budget requests. For each: every noised column of the IR must be matched by a Gaussian entry with multiplier <= sigma/C, every threshold filter by an epsilon-delta entry it satisfies (independent tau formula), and each aggregation's applied noise must fit its (epsilon, delta) under basic composition for some delta split.",
         "level_note": "Clipping constants are read from the scale-factor projections of the IR and must be among the bounds the noise was calibrated with. Trusted: the Gaussian calibration formula, Acklam's normal quantile (rel. error 1.2e-9), the IR pattern matcher for noise terms / threshold filters. The hook only supplies the clipping bound and the announced split; sigma and tau are read from the IR. Checks calibration formulas, not the DP theorem.",
         "rule": ("4 (query, parameters, synthetic flag) triples per generated DP world; evaluation = one accepted DP compilation; "
                  "distinct non-trivial = distinct triples whose rewritten query contains at least one randomised mechanism."),
@@ -84,7 +84,7 @@ PROPS = {
     },
     "C14": {
         "technique": "runtime monitoring: same staged executions as C07; every field flagged UNIQUE / PRIMARY KEY at every IR node must have pairwise distinct non-NULL values",
-        "level_text": "Exploration: ~25k generated queries per quick run, half of them aimed at what uniqueness depends on (projections through functions listed as bijections, single/multiple GROUP BY keys with only some selected, joins on unique / non-unique keys of all kinds, UNION ALL, DISTINCT, LIMIT); ~50k flagged columns checked.",
+        "level_text": "Exploration: ~25k generated queries per quick run, half of them aimed at what uniqueness depends on (projections through functions listed as bijections, single/multiple GROUP BY keys with only some selected, joins on unique / non-unique keys of all kinds with the key equality written in either operand order, UNION ALL, DISTINCT, LIMIT); ~50k flagged columns checked.",
         "level_note": "Trusted: as C07. Values compare exactly (1 = 1.0, 0.0 = -0.0).",
         "rule": ("as C07 with targeted uniqueness queries; evaluation = one executed IR node; distinct non-trivial = distinct executed (query, instance shape) pairs"),
         "assumptions": COMMON_ASSUME + ["base tables honour their own UNIQUE / PRIMARY KEY flags (checked before every case)"],
@@ -171,7 +171,7 @@ PROPS = {
     },
     "C18": {
         "technique": "runtime monitoring: every public compilation entry point (parse -> relation, schema/size, rendering, privacy-unit and DP rewriting) called under catch_unwind with a logical work budget (hook `tick`), overflow checks on, in subprocess shards with an in-flight log (aborts and stack overflows are seen as a dead shard with its last case)",
-        "level_text": "Exploration: ~60k queries per quick run over hostile schemas (i64::MIN/MAX, +-f64::MAX, ranges containing / touching zero, zero-width ranges, 100+ interval pieces, huge integer ranges, nullable everything, declared sizes 0 and i64::MAX) with the full function list, plus a second grammar of syntactically valid but unsupported constructs whose required outcome is an error value; DpParameters include zero budgets and shares 0 / 1. Outcome must be Ok or Err: a panic, an exhausted work budget (2e9 interval operations / enumerated values) or a dead process is a violation, keyed by entry point + panic site.",
+        "level_text": "Exploration: ~60k queries per quick run over hostile schemas (i64::MIN/MAX, +-f64::MAX, ranges containing / touching zero, zero-width ranges, 100+ interval pieces, huge integer ranges, nullable everything, declared sizes 0 and i64::MAX) with the full function list and joins of aggregating sub-queries, plus a second grammar of syntactically valid but unsupported constructs whose required outcome is an error value; DpParameters include zero budgets and shares 0 / 1. Outcome must be Ok or Err: a panic, an exhausted work budget (2e9 interval operations / enumerated values) or a dead process is a violation, keyed by entry point + panic site.",
         "level_note": "Workload includes every function name the reader knows with 0-4 arguments, aggregates of arithmetic over unbounded columns, bare columns next to aggregates. Trusted: catch_unwind + the panic hook recording the site, the tick hook (interval operations and value enumeration). A wall-clock watchdog only yields 'inconclusive'.",
         "rule": ("4 queries per catalogue (3/4 supported grammar, 1/4 unsupported grammar) x 5 entry points; evaluation = one entry-point call; distinct non-trivial = distinct (query, schema) pairs."),
         "assumptions": COMMON_ASSUME,
